@@ -21,7 +21,8 @@ Record txobj := mkObj {
   delegator : option N;
   executable : bool;
   price : option pricing;      (* TxObject.pricing (nil until published) *)
-  time_added : N
+  time_added : N;
+  local_ : bool                (* source == local (AddLocal): exempt from lifetime and pool limits *)
 }.
 
 (* Go maps: absent key = None *)
@@ -37,9 +38,9 @@ Definition empty_pool : pool := mkPool [] aempty aempty.
 Definition find_obj (h : N) (l : list txobj) : option txobj := find (fun o => hash o =? h) l.
 Definition remove_obj (h : N) (l : list txobj) : list txobj := filter (fun o => negb (hash o =? h)) l.
 Definition set_exec (o : txobj) (e : bool) : txobj :=
-  mkObj (hash o) (origin o) (delegator o) e (price o) (time_added o).
+  mkObj (hash o) (origin o) (delegator o) e (price o) (time_added o) (local_ o).
 Definition set_price (o : txobj) (p : option pricing) : txobj :=
-  mkObj (hash o) (origin o) (delegator o) (executable o) p (time_added o).
+  mkObj (hash o) (origin o) (delegator o) (executable o) p (time_added o) (local_ o).
 Definition replace_obj (o' : txobj) (l : list txobj) : list txobj :=
   map (fun o => if hash o =? hash o' then o' else o) l.
 
